@@ -8,7 +8,7 @@
 #include "cut.h"
 #include "htp_multipart_private.h"
 
-typedef struct gpart { char name[16]; int has_file; char fname[16]; int has_ct; uint8_t content[24]; size_t clen; } gpart;
+typedef struct gpart { char name[16]; int has_file; char fname[16]; int has_ct; uint8_t content[24]; size_t clen; int cdstyle; /* 0 form-data; name=".."  1 token value  2 Form-Data  3 Name= */ } gpart;
 typedef struct gbody { char boundary[8]; int nparts; gpart parts[3]; int pre, epi, lf; hx_buf wire; char desc[220]; } gbody;
 
 static htp_cfg_t *cfg;
@@ -28,9 +28,12 @@ static void gen_wire(gbody *b) {
     for (int i = 0; i < b->nparts; i++) {
         gpart *p = &b->parts[i];
         hb_printf(&b->wire, "--%s%s", b->boundary, nl);
-        hb_puts(&b->wire, "Content-Disposition: form-data; name=\"");
+        if (p->cdstyle == 1) hb_printf(&b->wire, "Content-Disposition: form-data; name=%s", p->name);          /* RFC 7578 / 2183: a value may be a token */
+        else {
+        hb_puts(&b->wire, p->cdstyle == 2 ? "Content-Disposition: Form-Data; name=\"" : p->cdstyle == 3 ? "Content-Disposition: form-data; Name=\"" : "Content-Disposition: form-data; name=\"");
         for (const char *c = p->name; *c; c++) { if (*c == '"' || *c == '\\') hb_putc(&b->wire, '\\'); hb_putc(&b->wire, *c); }
         hb_putc(&b->wire, '"');
+        }
         if (p->has_file) { hb_puts(&b->wire, "; filename=\""); for (const char *c = p->fname; *c; c++) { if (*c == '"' || *c == '\\') hb_putc(&b->wire, '\\'); hb_putc(&b->wire, *c); } hb_putc(&b->wire, '"'); }
         hb_puts(&b->wire, nl);
         if (p->has_ct) hb_printf(&b->wire, "Content-Type: text/plain%s", nl);
@@ -104,6 +107,8 @@ static const char *describe(void) {
 static void viol(const char *kind, const char *fmt, ...) {
     char tmp[600]; va_list ap; va_start(ap, fmt); vsnprintf(tmp, sizeof tmp, fmt, ap); va_end(ap);
     char m[900]; snprintf(m, sizeof m, "%s: %s", curb ? curb->desc : "?", tmp);
+    /* bodies that spell Content-Disposition in another legal way (token value, other letter case) are a class of their own */
+    if (curb) for (int i = 0; i < curb->nparts; i++) if (curb->parts[i].cdstyle) kind = "cd_variant_not_recognised";
     hx_emit_violation("C14", kind, kind, m, describe());
 }
 static int same_buf(const hx_buf *a, const char *s, size_t n, int present) {
@@ -202,7 +207,7 @@ static int mine(void) { return body_id++ % hx_shard_n == hx_shard_i; }
 static void describe_body(gbody *b) {
     hx_buf d = { (uint8_t *) b->desc, 0, sizeof b->desc - 1 };
     hb_printf(&d, "boundary=%s parts=%d pre=%d epi=%d %s", b->boundary, b->nparts, b->pre, b->epi, b->lf ? "LF" : "CRLF");
-    for (int i = 0; i < b->nparts; i++) { hb_printf(&d, " [name=%s file=%d ct=%d content=\"", b->parts[i].name, b->parts[i].has_file, b->parts[i].has_ct); hb_esc(&d, b->parts[i].content, b->parts[i].clen); hb_puts(&d, "\"]"); }
+    for (int i = 0; i < b->nparts; i++) { hb_printf(&d, " [name=%s file=%d ct=%d cdstyle=%d content=\"", b->parts[i].name, b->parts[i].has_file, b->parts[i].has_ct, b->parts[i].cdstyle); hb_esc(&d, b->parts[i].content, b->parts[i].clen); hb_puts(&d, "\"]"); }
     hb_term(&d);
 }
 
@@ -253,6 +258,13 @@ static int worker(int argc, char **argv) {
         if (hx_deadline_hit()) goto out;
         gen_wire(&b); describe_body(&b); explore_body(&b);
         if (body_id % 2000 == 1) hx_emit_sample(b.desc);
+    }
+    /* other legal spellings of Content-Disposition (one text part named a) */
+    for (int cs = 1; cs <= 3; cs++) for (int ci = 0; ci < ncont && ci < 40; ci++) for (int lf = 0; lf < 2; lf++) {
+        memset(&b, 0, offsetof(gbody, wire)); strcpy(b.boundary, "BB"); b.nparts = 1; b.lf = lf;
+        gpart *p = &b.parts[0]; strcpy(p->name, "a"); p->cdstyle = cs; memcpy(p->content, CONT[ci], CLEN[ci]); p->clen = CLEN[ci];
+        if (!content_ok(&b, p->content, p->clen) || !mine()) continue;
+        gen_wire(&b); describe_body(&b); explore_body(&b);
     }
     /* two parts (three in thorough): representative contents */
     {
